@@ -20,11 +20,12 @@ func init() {
 	vRegister("VerifHarness_C10_ReaderDeletesPersist", VerifHarness_C10_ReaderDeletesPersist)
 }
 
-var vC10Tombs []Tombstone
+// one tombstone list per TSM file path (two readers of the same file share it)
+var vC10TombsByPath = map[string][]Tombstone{}
 
 func vC10AddRange(t *Tombstoner, keys [][]byte, min, max int64) error {
 	for _, k := range keys {
-		vC10Tombs = append(vC10Tombs, Tombstone{Key: append([]byte(nil), k...), Min: min, Max: max})
+		vC10TombsByPath[t.Path] = append(vC10TombsByPath[t.Path], Tombstone{Key: append([]byte(nil), k...), Min: min, Max: max})
 	}
 	return nil
 }
@@ -36,13 +37,14 @@ func vC10Rollback(t *Tombstoner) error { return nil }
 var vC10Applied map[*Tombstoner]int
 
 func vC10Walk(t *Tombstoner, fn func(t Tombstone) error) error {
+	all := vC10TombsByPath[t.Path]
 	from := vC10Applied[t]
-	for _, x := range vC10Tombs[from:] {
+	for _, x := range all[from:] {
 		if err := fn(x); err != nil {
 			return err
 		}
 	}
-	vC10Applied[t] = len(vC10Tombs)
+	vC10Applied[t] = len(all)
 	return nil
 }
 
@@ -63,7 +65,7 @@ type vC10Del struct {
 }
 
 func VerifHarness_C10_ReaderDeletesPersist() {
-	vC10Tombs = nil
+	vC10TombsByPath = map[string][]Tombstone{}
 	vC10Applied = map[*Tombstoner]int{}
 	dir := vC10TempDir()
 	defer vC10RemoveAll(dir)
